@@ -147,34 +147,32 @@ Definition unit_matches (iei:N) (u:unit_row) : bool :=
   | UThalf => (128 <=? iei) && (iei / 16 =? u_iei u)
   | _ => (iei <? 128) && (iei =? u_iei u)
   end.
-Fixpoint set_first {A} (p:A -> bool) (f:A -> A) (l:list A) : list A :=
-  match l with [] => [] | x :: r => if p x then f x :: r else x :: set_first p f r end.
+(* optional IEs are collected in a log keyed by (IEI, half-octet or not); the first occurrence of an IE wins *)
+Definition unit_key (u:unit_row) : N := match u_kind u with UThalf => u_iei u + 1000 | _ => u_iei u end.
+Fixpoint lookupK (k:N) (l:list (N * fval)) : option fval :=
+  match l with [] => None | (k', v) :: r => if k =? k' then Some v else lookupK k r end.
+Definition log_first (k:N) (v:fval) (log:list (N * fval)) : list (N * fval) :=
+  match lookupK k log with Some _ => log | None => (k, v) :: log end.
 
-(* state: per optional row its value so far ([absent] initially); first occurrence wins *)
-Fixpoint ref_parse_opt (fuel:nat) (us:list unit_row) (acc:list (unit_row * fval)) (bs:bytes) : res (list (unit_row * fval)) :=
+Fixpoint ref_parse_opt (fuel:nat) (us:list unit_row) (log:list (N * fval)) (bs:bytes) : res (list (N * fval)) :=
   match bs with
-  | [] => Ok acc
+  | [] => Ok log
   | iei :: rest =>
       match fuel with
       | O => OutOfFuel
       | S fuel' =>
           match find (unit_matches iei) us with
           | Some u =>
-              bind (ref_parse_value u iei rest) (fun r =>
-                ref_parse_opt fuel' us
-                  (set_first (fun uv => (u_iei (fst uv) =? u_iei u) && negb (fv_present (snd uv))
-                                        && match u_kind (fst uv), u_kind u with UThalf, UThalf => true | UThalf, _ | _, UThalf => false | _, _ => true end)
-                             (fun uv => (fst uv, fst r)) acc)
-                  (snd r))
+              bind (ref_parse_value u iei rest) (fun r => ref_parse_opt fuel' us (log_first (unit_key u) (fst r) log) (snd r))
           | None =>
               (* TS 24.007 11.2.4: unknown IE *)
               if iei <? 16 then Err "comprehension required"
-              else if 128 <=? iei then ref_parse_opt fuel' us acc rest
+              else if 128 <=? iei then ref_parse_opt fuel' us log rest
               else let lw := if (112 <=? iei) then 2%nat else 1%nat in
                    match read_len lw rest with
                    | None => Err "unknown IE: length truncated"
                    | Some (l, r) => match split_at l r with
-                                    | Some (_, r') => ref_parse_opt fuel' us acc r'
+                                    | Some (_, r') => ref_parse_opt fuel' us log r'
                                     | None => Err "unknown IE: value truncated" end
                    end
           end
@@ -186,8 +184,8 @@ Definition ref_parse (t:msg_table) (bs:bytes) : res (list fval * list fval) :=
   match mand_units (tb_mand t), opt_units (tb_opt t) with
   | Some mu, Some ou =>
       bind (ref_parse_mand mu bs) (fun r =>
-      bind (ref_parse_opt (List.length (snd r)) ou (map (fun u => (u, absent)) ou) (snd r)) (fun acc =>
-      Ok (fst r, map snd acc)))
+      bind (ref_parse_opt (List.length (snd r)) ou [] (snd r)) (fun log =>
+      Ok (fst r, map (fun u => match lookupK (unit_key u) log with Some v => v | None => absent end) ou)))
   | _, _ => Err "table" end.
 
 (* dispatch on EPD and message type *)
@@ -205,7 +203,7 @@ Fixpoint nodupN (l:list N) : bool := match l with [] => true | x :: r => negb (e
 Definition table_ok (t:msg_table) : bool :=
   match mand_units (tb_mand t), opt_units (tb_opt t) with
   | Some _, Some ou =>
-      nodupN (map (fun u => match u_kind u with UThalf => u_iei u + 1000 | _ => u_iei u end) ou) &&
+      nodupN (map unit_key ou) &&
       forallb (fun u => match u_kind u with UThalf => (8 <=? u_iei u) && (u_iei u <? 16) | _ => (16 <=? u_iei u) && (u_iei u <? 128) end) ou
   | _, _ => false end.
 
